@@ -18,7 +18,7 @@ PI = math.pi
 
 
 def units(tier):
-    return [(i, 2500) for i in range(12)] if tier == "quick" else [(i, 100000) for i in range(16)]
+    return [(i, 2500) for i in range(12)] if tier == "quick" else [(i, 60000) for i in range(16)]
 
 
 def _angle():
